@@ -92,6 +92,12 @@ RESOLVE = [
 ]
 
 
+# variables of each constraint / of the objective, read off the formulas above
+RESOLVE_CVARS = [[['y'], ['x'], ['y']], [['x', 'y'], ['x', 'y']], [['y'], ['y'], ['x', 'y', 'z'], ['z']],
+                 [['x', 'y', 'z'], ['z'], ['y']], [['x', 'y'], ['y', 'z'], ['x', 'y', 'z'], ['y']]]
+RESOLVE_OVARS = [['x', 'y'], ['x', 'y'], ['x', 'y'], ['x', 'y'], ['x', 'z']]
+
+
 def run_resolve(case):
     """solve() repeated on one op, and a fresh op built from the same constraint objects afterwards: the op's variables,
     the values of its objective and constraint functions at a fixed point and the answer stay the same."""
@@ -118,8 +124,18 @@ def run_resolve(case):
             return ('exc', type(e).__name__, str(e)[:80])
         return (q.status, None if q.status != 'optimal' else round(q.objective.value()[0], 6))
     s0 = snapshot()
+    # the variables an op knows are those of its objective and constraints (here: all of x, y, z - by construction)
+    want_c = RESOLVE_CVARS[case['k']]
+    want_v = sorted(set(v for cv in want_c for v in cv) | set(RESOLVE_OVARS[case['k']]))
+    if s0['variables'] != want_v or s0['cvars'] != [sorted(cv) for cv in want_c]:
+        viol.append({'key': 'C13:resolve:variables-of-a-fresh-op', 'msg': 'op.variables() of the freshly built op is %r (formulas: %r), constraint '
+                     'variables %r (formulas: %r)' % (s0['variables'], want_v, s0['cvars'], want_c), 'sub': {'k': case['k']}})
     first = answer(p)
     n += 1
+    # the problems are feasible and bounded by construction (box-like constraints on every variable that the objective moves)
+    if first[0] != 'optimal':
+        viol.append({'key': 'C13:resolve:first-solve-not-optimal', 'msg': 'solve() of a feasible bounded PWL problem gives %r' % (first,),
+                     'sub': {'k': case['k']}})
     for rep in (2, 3):
         try:
             s1 = snapshot()
